@@ -97,10 +97,7 @@ theorem parseComponent_bracket (base : Str) (segs : List Seg)
     (h1 : '*' ∉ base) (h2 : '[' ∉ base) (hsegs : stageSegs base = Except.ok segs)
     (elem count : Option Nat) (hc : ∀ c, count = some c → 0 < c) :
     parseComponent (base ++ bracketText elem count) none none
-      = Except.ok (segs ++ elemSegs elem, elem.map (fun e => (e : Int)), countOut elem count)
-      ∨ (∃ e, elem = some e ∧
-          parseComponent (base ++ bracketText elem count) none none
-            = Except.ok (setElement segs (e : Int), some (e : Int), countOut elem count)) := by
+      = Except.ok (finishComponent segs (elem.map fun e => (e : Int)) (countOut elem count)) := by
   have hstar : stageStar (base ++ bracketText elem count) none
       = Except.ok (base ++ bracketText elem count, none) := by
     unfold stageStar
@@ -112,14 +109,11 @@ theorem parseComponent_bracket (base : Str) (segs : List Seg)
       · exact bracket_no '*' (by decide) (by decide) (by decide) (by decide) elem count hm
   cases elem with
   | none =>
-    left
     have hb : stageBracket base none none = Except.ok (base, none, none) := by
       unfold stageBracket; rw [splitFirst_none _ _ h2]; rfl
     simp only [bracketText, List.append_nil] at hstar ⊢
-    simp [parseComponent, hstar, hb, hsegs, finishComponent, elemSegs, countOut]
+    simp [parseComponent, hstar, hb, hsegs, countOut]
   | some e =>
-    right
-    refine ⟨e, rfl, ?_⟩
     cases count with
     | none =>
       have hsf : splitFirst '[' (base ++ '[' :: (decimal e ++ [']'])) = some (base, decimal e ++ [']']) :=
@@ -131,7 +125,9 @@ theorem parseComponent_bracket (base : Str) (segs : List Seg)
         simp only [stageBracket, bracketText, List.cons_append, hsf, hsa, parseBracket_single]
         simp
         rfl
-      simp [parseComponent, hstar, hb, hsegs, finishComponent, countOut]
+      rw [parseComponent, hstar]
+      simp only [hb, hsegs]
+      rfl
     | some c =>
       have hcp := hc c rfl
       have hnot : ']' ∉ decimal e ++ '-' :: decimal (e + c - 1) := by
@@ -155,7 +151,46 @@ theorem parseComponent_bracket (base : Str) (segs : List Seg)
           parseBracket_range e c hcp]
         simp
         rfl
-      simp [parseComponent, hstar, hb, hsegs, finishComponent, countOut]
+      rw [parseComponent, hstar]
+      simp only [hb, hsegs]
+      rfl
+
+/-- the same with the count written as `*<count>` after the (optional) `[<elem>]` -/
+theorem parseComponent_star (base : Str) (segs : List Seg)
+    (h1 : '*' ∉ base) (h2 : '[' ∉ base) (hsegs : stageSegs base = Except.ok segs)
+    (elem : Option Nat) (c : Nat) :
+    parseComponent (base ++ bracketText elem none ++ '*' :: decimal c) none none
+      = Except.ok (finishComponent segs (elem.map fun e => (e : Int)) (some (c : Int))) := by
+  have hno : '*' ∉ base ++ bracketText elem none := by
+    intro hm
+    rcases List.mem_append.mp hm with hm | hm
+    · exact h1 hm
+    · exact bracket_no '*' (by decide) (by decide) (by decide) (by decide) elem none hm
+  have hstar : stageStar (base ++ bracketText elem none ++ '*' :: decimal c) none
+      = Except.ok (base ++ bracketText elem none, some (c : Int)) := by
+    unfold stageStar
+    rw [splitFirst_append _ _ _ hno]
+    simp only [parseInt_decimal]
+    rfl
+  cases elem with
+  | none =>
+    have hb : stageBracket base none (some (c : Int)) = Except.ok (base, none, some (c : Int)) := by
+      unfold stageBracket; rw [splitFirst_none _ _ h2]; rfl
+    simp only [bracketText, List.append_nil] at hstar ⊢
+    simp [parseComponent, hstar, hb, hsegs]
+  | some e =>
+    have hsf : splitFirst '[' (base ++ '[' :: (decimal e ++ [']'])) = some (base, decimal e ++ [']']) :=
+      splitFirst_append _ _ _ h2
+    have hsa : splitAll ']' (decimal e ++ [']']) = [decimal e, []] := by
+      rw [splitAll_append _ _ _ (not_mem_decimal e ']' (by decide))]; rfl
+    have hb : stageBracket (base ++ bracketText (some e) none) none (some (c : Int))
+        = Except.ok (base, some (e : Int), some (c : Int)) := by
+      simp only [stageBracket, bracketText, List.cons_append, hsf, hsa, parseBracket_single]
+      simp
+      rfl
+    rw [parseComponent, hstar]
+    simp only [hb, hsegs]
+    rfl
 
 /-! ### format_path, generally -/
 
@@ -277,9 +312,7 @@ theorem parseComponent_name (n : Str) (h : NameOk n) :
     parseComponent n none none = Except.ok ([Seg.sym n], none, none) := by
   have := parseComponent_bracket n [Seg.sym n] h.2.2.2.1 h.2.2.1 (stageSegs_name n h.2.2.2.2)
     none none (by simp)
-  rcases this with h1 | ⟨e, he, _⟩
-  · simpa [bracketText, countOut, elemSegs] using h1
-  · cases he
+  simpa [bracketText, countOut, finishComponent] using this
 
 theorem splitAll_dotted (n : Str) (ms : List Str) (tail : Str) (hn : '.' ∉ n)
     (hms : ∀ m ∈ ms, '.' ∉ m) (ht : '.' ∉ tail) :
@@ -317,36 +350,70 @@ theorem parseElementsGo_names (init : List Str) (last : Str)
       simp only [List.cons_append, hl, parseElementsGo, hm, ih']
       simp
 
+/-- what a component parser does with `<base><tail>` for every base free of '*' and '[' -/
+def TailParses (tail : Str) (E C : Option Int) : Prop :=
+  ∀ (base : Str) (segs : List Seg), '*' ∉ base → '[' ∉ base → stageSegs base = Except.ok segs →
+    parseComponent (base ++ tail) none none = Except.ok (finishComponent segs E C)
+
+def withElem (segs : List Seg) (E : Option Int) : List Seg :=
+  match E with
+  | some e => segs ++ [elemSeg e]
+  | none => segs
+
+theorem parse_symbolic_tail (n : Str) (ms : List Str) (hok : ∀ m ∈ n :: ms, NameOk m)
+    (tail : Str) (htail : '.' ∉ tail) (E C : Option Int) (hcomp : TailParses tail E C) :
+    parsePathElements (dotted n ms ++ tail)
+      = Except.ok (withElem ((n :: ms).map Seg.sym) E, E, C) := by
+  obtain ⟨init, last, hsplit, hnames⟩ := splitAll_dotted n ms tail
+    (hok n (by simp)).2.1 (fun m hm => (hok m (by simp [hm])).2.1) htail
+  have hmem : ∀ x, x ∈ init ++ [last] → NameOk x := by
+    intro x hx; rw [hnames] at hx; exact hok x hx
+  have hlastok := hmem last (by simp)
+  have hmap : (n :: ms).map Seg.sym = init.map Seg.sym ++ [Seg.sym last] := by
+    rw [← hnames]; simp
+  have hlast := hcomp last [Seg.sym last] hlastok.2.2.2.1 hlastok.2.2.1
+    (stageSegs_name last hlastok.2.2.2.2)
+  unfold parsePathElements
+  rw [hsplit, hmap, parseElementsGo_names init (last ++ tail)
+    (fun m hm => hmem m (by simp [hm])) _ hlast]
+  cases E with
+  | none => simp [finishComponent, withElem]
+  | some e => simp [finishComponent, withElem, setElement, List.append_assoc]
+
+theorem bracket_tail (elem count : Option Nat) (hc : ∀ c, count = some c → 0 < c) :
+    TailParses (bracketText elem count) (elem.map fun e => (e : Int)) (countOut elem count) :=
+  fun base segs h1 h2 hsegs => parseComponent_bracket base segs h1 h2 hsegs elem count hc
+
+theorem star_tail (elem : Option Nat) (c : Nat) :
+    TailParses (bracketText elem none ++ '*' :: decimal c) (elem.map fun e => (e : Int))
+      (some (c : Int)) := by
+  intro base segs h1 h2 hsegs
+  have := parseComponent_star base segs h1 h2 hsegs elem c
+  simpa [List.append_assoc] using this
+
+theorem withElem_map (segs : List Seg) (elem : Option Nat) :
+    withElem segs (elem.map fun e => (e : Int)) = segs ++ elemSegs elem := by
+  cases elem <;> simp [withElem, elemSegs]
+
+theorem parse_symbolic_text (n : Str) (ms : List Str) (hok : ∀ m ∈ n :: ms, NameOk m)
+    (elem count : Option Nat) (hc : ∀ c, count = some c → 0 < c) :
+    parsePathElements (dotted n ms ++ bracketText elem count)
+      = Except.ok ((n :: ms).map Seg.sym ++ elemSegs elem, elem.map (fun e => (e : Int)),
+                   countOut elem count) := by
+  rw [parse_symbolic_tail n ms hok _
+    (bracket_no '.' (by decide) (by decide) (by decide) (by decide) elem count) _ _
+    (bracket_tail elem count hc), withElem_map]
+
 /-- **a formatted symbolic path parses back** -/
 theorem format_parse_symbolic (n : Str) (ms : List Str) (hok : ∀ m ∈ n :: ms, NameOk m)
     (elem count : Option Nat) (hc : ∀ c, count = some c → 0 < c) :
     ∃ text, formatPath ((n :: ms).map Seg.sym ++ elemSegs elem) (count.map fun c => (c : Int)) = some text
       ∧ parsePathElements text
           = Except.ok ((n :: ms).map Seg.sym ++ elemSegs elem, elem.map (fun e => (e : Int)),
-                       countOut elem count) := by
-  refine ⟨dotted n ms ++ bracketText elem count, ?_, ?_⟩
-  · exact formatPath_symbolic n ms (hok n (by simp)).1 (fun m hm => (hok m (by simp [hm])).1) elem
-      count hc
-  · obtain ⟨init, last, hsplit, hnames⟩ := splitAll_dotted n ms (bracketText elem count)
-      (hok n (by simp)).2.1 (fun m hm => (hok m (by simp [hm])).2.1)
-      (bracket_no '.' (by decide) (by decide) (by decide) (by decide) elem count)
-    have hmem : ∀ x, x ∈ init ++ [last] → NameOk x := by
-      intro x hx; rw [hnames] at hx; exact hok x hx
-    have hlastok := hmem last (by simp)
-    have hmap : (n :: ms).map Seg.sym = init.map Seg.sym ++ [Seg.sym last] := by
-      rw [← hnames]; simp
-    have hlast := parseComponent_bracket last [Seg.sym last] hlastok.2.2.2.1 hlastok.2.2.1
-      (stageSegs_name last hlastok.2.2.2.2) elem count hc
-    unfold parsePathElements
-    rw [hsplit, hmap]
-    rcases hlast with hl | ⟨e, he, hl⟩
-    · rw [parseElementsGo_names init (last ++ bracketText elem count)
-        (fun m hm => hmem m (by simp [hm])) _ hl]
-      simp [List.append_assoc]
-    · rw [parseElementsGo_names init (last ++ bracketText elem count)
-        (fun m hm => hmem m (by simp [hm])) _ hl]
-      subst he
-      simp [elemSegs, setElement, List.append_assoc]
+                       countOut elem count) :=
+  ⟨dotted n ms ++ bracketText elem count,
+   formatPath_symbolic n ms (hok n (by simp)).1 (fun m hm => (hok m (by simp [hm])).1) elem count hc,
+   parse_symbolic_text n ms hok elem count hc⟩
 
 /-! ### numeric paths: class [/ instance [/ attribute]] -/
 
@@ -453,57 +520,118 @@ theorem setElement_more (s : Seg) (i : Nat) (vs : List Nat) (e : Int) (hi : i + 
       | 1, _ => rfl
       | 2, _ => rfl
 
+theorem format_numeric_text (c : Nat) (rest : List Nat) (hr : rest.length ≤ 2)
+    (elem count : Option Nat) (hc : ∀ k, count = some k → 0 < k) :
+    formatPath (stdSegs c rest ++ elemSegs elem) (count.map fun k => (k : Int))
+      = some (stdText c rest ++ bracketText elem count) := by
+  have hfmt : fmtLoop {} (stdSegs c rest)
+      = some { symbolic := [], numeric := hex04 (c : Int) :: rest.map decimal, element := none } := by
+    match rest, hr with
+    | [], _ =>
+      simp [stdSegs, moreSegs, fmtLoop, fmtStep, hasKey, getKey, kClass, kSymbolic]
+    | [i], _ =>
+      simp [stdSegs, moreSegs, defaultKey, fmtLoop, fmtStep, hasKey, getKey, kClass, kSymbolic,
+        kInstance, decimalInt_nat]
+    | [i, a], _ =>
+      simp [stdSegs, moreSegs, defaultKey, fmtLoop, fmtStep, hasKey, getKey, kClass, kSymbolic,
+        kInstance, kAttribute, decimalInt_nat]
+  rw [formatPath_with_elem _ _ hfmt (by simp) rfl elem count hc]
+  congr 1
+  simp only [pathOf, ne_eq, not_true_eq_false, if_false, stdText]
+  congr 1
+  have : ∀ (pre : Str) (vs : List Nat), joinWith '/' (pre :: vs.map decimal) = pre ++ moreText vs := by
+    intro pre vs
+    induction vs generalizing pre with
+    | nil => simp [joinWith, moreText]
+    | cons v vs ih => simp [joinWith, moreText, ih (decimal v)]
+  rw [this]
+  rfl
+
+theorem parse_numeric_tail (c : Nat) (rest : List Nat) (hr : rest.length ≤ 2)
+    (tail : Str) (htail : '.' ∉ tail) (E C : Option Int) (hcomp : TailParses tail E C) :
+    parsePathElements (stdText c rest ++ tail) = Except.ok (withElem (stdSegs c rest) E, E, C) := by
+  unfold parsePathElements
+  have hdot : '.' ∉ stdText c rest ++ tail := by
+    intro hm
+    rcases List.mem_append.mp hm with hm | hm
+    · exact stdText_no '.' (by decide) (by decide) (by decide) c rest hm
+    · exact htail hm
+  rw [splitAll_none _ _ hdot]
+  simp only [parseElementsGo]
+  rw [hcomp (stdText c rest) (stdSegs c rest)
+    (stdText_no '*' (by decide) (by decide) (by decide) c rest)
+    (stdText_no '[' (by decide) (by decide) (by decide) c rest)
+    (stageSegs_std c rest (by omega))]
+  cases E with
+  | none => rfl
+  | some e =>
+    have := setElement_more (Seg.dict [(kClass, (c : Int))]) 1 rest e (by omega)
+      (by intro kvs hk; injection hk with hk; subst hk; rfl)
+    simp only [stdSegs, finishComponent, withElem] at this ⊢
+    rw [this]
+
+theorem parse_numeric_text (c : Nat) (rest : List Nat) (hr : rest.length ≤ 2)
+    (elem count : Option Nat) (hc : ∀ k, count = some k → 0 < k) :
+    parsePathElements (stdText c rest ++ bracketText elem count)
+      = Except.ok (stdSegs c rest ++ elemSegs elem, elem.map (fun e => (e : Int)),
+                   countOut elem count) := by
+  rw [parse_numeric_tail c rest hr _
+    (bracket_no '.' (by decide) (by decide) (by decide) (by decide) elem count) _ _
+    (bracket_tail elem count hc), withElem_map]
+
 /-- **a formatted numeric path parses back** (`rest` = instance, attribute: at most two numbers) -/
 theorem format_parse_numeric (c : Nat) (rest : List Nat) (hr : rest.length ≤ 2)
     (elem count : Option Nat) (hc : ∀ k, count = some k → 0 < k) :
     ∃ text, formatPath (stdSegs c rest ++ elemSegs elem) (count.map fun k => (k : Int)) = some text
       ∧ parsePathElements text
           = Except.ok (stdSegs c rest ++ elemSegs elem, elem.map (fun e => (e : Int)),
-                       countOut elem count) := by
-  refine ⟨stdText c rest ++ bracketText elem count, ?_, ?_⟩
-  · -- formatting
-    have hfmt : fmtLoop {} (stdSegs c rest)
-        = some { symbolic := [], numeric := hex04 (c : Int) :: rest.map decimal, element := none } := by
-      match rest, hr with
-      | [], _ =>
-        simp [stdSegs, moreSegs, fmtLoop, fmtStep, hasKey, getKey, kClass, kSymbolic]
-      | [i], _ =>
-        simp [stdSegs, moreSegs, defaultKey, fmtLoop, fmtStep, hasKey, getKey, kClass, kSymbolic,
-          kInstance, decimalInt_nat]
-      | [i, a], _ =>
-        simp [stdSegs, moreSegs, defaultKey, fmtLoop, fmtStep, hasKey, getKey, kClass, kSymbolic,
-          kInstance, kAttribute, decimalInt_nat]
-    rw [formatPath_with_elem _ _ hfmt (by simp) rfl elem count hc]
-    congr 1
-    simp only [pathOf, ne_eq, not_true_eq_false, if_false, stdText]
-    congr 1
-    have : ∀ (pre : Str) (vs : List Nat), joinWith '/' (pre :: vs.map decimal) = pre ++ moreText vs := by
-      intro pre vs
-      induction vs generalizing pre with
-      | nil => simp [joinWith, moreText]
-      | cons v vs ih => simp [joinWith, moreText, ih (decimal v)]
-    rw [this]
-    rfl
-  · unfold parsePathElements
-    have hdot : '.' ∉ stdText c rest ++ bracketText elem count := by
-      intro hm
-      rcases List.mem_append.mp hm with hm | hm
-      · exact stdText_no '.' (by decide) (by decide) (by decide) c rest hm
-      · exact bracket_no '.' (by decide) (by decide) (by decide) (by decide) elem count hm
-    rw [splitAll_none _ _ hdot]
-    simp only [parseElementsGo]
-    have := parseComponent_bracket (stdText c rest) (stdSegs c rest)
-      (stdText_no '*' (by decide) (by decide) (by decide) c rest)
-      (stdText_no '[' (by decide) (by decide) (by decide) c rest)
-      (stageSegs_std c rest (by omega)) elem count hc
-    rcases this with h | ⟨e, he, h⟩
-    · exact h
-    · rw [h]
-      subst he
-      have := setElement_more (Seg.dict [(kClass, (c : Int))]) 1 rest (e : Int) (by omega)
-        (by intro kvs hk; injection hk with hk; subst hk; rfl)
-      simp only [stdSegs, elemSegs] at this ⊢
-      rw [this]
-      rfl
+                       countOut elem count) :=
+  ⟨stdText c rest ++ bracketText elem count, format_numeric_text c rest hr elem count hc,
+   parse_numeric_text c rest hr elem count hc⟩
+
+/-! ### both shapes -/
+
+inductive PathBody
+  | symbolic (n : Str) (ms : List Str)
+  | numeric (c : Nat) (rest : List Nat)
+
+def PathBody.segs : PathBody → List Seg
+  | PathBody.symbolic n ms => (n :: ms).map Seg.sym
+  | PathBody.numeric c rest => stdSegs c rest
+
+def PathBody.text : PathBody → Str
+  | PathBody.symbolic n ms => dotted n ms
+  | PathBody.numeric c rest => stdText c rest
+
+def PathBody.Ok : PathBody → Prop
+  | PathBody.symbolic n ms => ∀ m ∈ n :: ms, NameOk m
+  | PathBody.numeric _ rest => rest.length ≤ 2
+
+instance (b : PathBody) : Decidable b.Ok := by
+  cases b <;> simp only [PathBody.Ok] <;> infer_instance
+
+theorem format_body (b : PathBody) (hb : b.Ok) (elem count : Option Nat)
+    (hc : ∀ k, count = some k → 0 < k) :
+    formatPath (b.segs ++ elemSegs elem) (count.map fun k => (k : Int))
+      = some (b.text ++ bracketText elem count) := by
+  cases b with
+  | symbolic n ms =>
+    exact formatPath_symbolic n ms (hb n (by simp)).1 (fun m hm => (hb m (by simp [hm])).1) elem count hc
+  | numeric c rest => exact format_numeric_text c rest hb elem count hc
+
+theorem parse_body_tail (b : PathBody) (hb : b.Ok) (tail : Str) (htail : '.' ∉ tail)
+    (E C : Option Int) (hcomp : TailParses tail E C) :
+    parsePathElements (b.text ++ tail) = Except.ok (withElem b.segs E, E, C) := by
+  cases b with
+  | symbolic n ms => exact parse_symbolic_tail n ms hb tail htail E C hcomp
+  | numeric c rest => exact parse_numeric_tail c rest hb tail htail E C hcomp
+
+theorem parse_body (b : PathBody) (hb : b.Ok) (elem count : Option Nat)
+    (hc : ∀ k, count = some k → 0 < k) :
+    parsePathElements (b.text ++ bracketText elem count)
+      = Except.ok (b.segs ++ elemSegs elem, elem.map (fun e => (e : Int)), countOut elem count) := by
+  cases b with
+  | symbolic n ms => exact parse_symbolic_text n ms hb elem count hc
+  | numeric c rest => exact parse_numeric_text c rest hb elem count hc
 
 end Cpppo.Client
